@@ -1492,6 +1492,7 @@ impl World {
                                 let facts
                                     = keyfacts.entry(kname).or_default();
                                 facts.roas.insert(id.clone());
+                                facts.kinds.insert("roa");
                                 facts.objs.insert(id);
                                 facts.files.insert(fname.clone());
                             }
@@ -1549,8 +1550,10 @@ impl World {
                                         &kname, &serial.to_string(),
                                         Some(serial)
                                     );
-                                    keyfacts.entry(kname).or_default()
-                                        .roas.insert(id);
+                                    let facts
+                                        = keyfacts.entry(kname).or_default();
+                                    facts.kinds.insert("rtr");
+                                    facts.roas.insert(id);
                                 }
                                 let label = self.rtr_label(&subject);
                                 for block in cert.as_resources().to_blocks()
@@ -1608,7 +1611,8 @@ impl World {
                                 );
                                 let facts
                                     = keyfacts.entry(kname).or_default();
-                                // (renewed together with route origins)
+                                // (renewed like route origins)
+                                facts.kinds.insert("asa");
                                 facts.roas.insert(id.clone());
                                 facts.objs.insert(id);
                                 facts.files.insert(fname.clone());
@@ -1718,6 +1722,7 @@ impl World {
                 "crl": facts.crl_number.unwrap_or(-1),
                 "mft_this": facts.mft_this, "mft_next": facts.mft_next,
                 "objs": facts.objs, "roas": facts.roas, "revoked": revoked,
+                "kinds": facts.kinds.len(),
                 "unlisted": unlisted, "missing": missing,
             }));
         }
@@ -1736,6 +1741,9 @@ struct KeyFacts {
     crl: Option<rpki::repository::crl::Crl>,
     objs: BTreeSet<String>,
     roas: BTreeSet<String>,
+    /// the kinds of renewable objects under the key (roa, asa, rtr): each
+    /// kind is renewed by its own command
+    kinds: BTreeSet<&'static str>,
     files: BTreeSet<String>,
     listed: BTreeSet<String>,
 }
